@@ -1,4 +1,6 @@
 import OpusProofs.ResetState
+import OpusProofs.ResetDecode
+import OpusProofs.ResetMs
 /-
   OpusProps.C12 — codec state is deterministic, freely copyable and reset-equivalent
   (DESIGN.md §7.C12).  Model: OpusModel.ResetState (init / OPUS_RESET_STATE / settings transcribed
@@ -70,6 +72,57 @@ theorem dec_reset_eq_init (s : Dec) (h : DecInv s) :
 
 example : DecInv { (decInit 48000 2 4 96 8712) with dcPrevPitchLag := 228, prevMode := 1000, bandwidth := 1103 } :=
   ⟨rfl, rfl⟩
+
+/-- Same clause for the decoder, behavioural form: for every decoder state reachable from
+    `opus_decoder_init` by setting requests, resets and decode calls (any DSP behaviour, any packets), the
+    reset decoder and a new decoder carrying the same settings return the same codes, getter values and PCM
+    for EVERY later sequence of setting requests, getters, resets and decode calls (normal, lost-packet and
+    FEC calls are all `decode` footprints). -/
+theorem dec_reset_indistinguishable (O : DOracles) (s : Dec) (h : DReach s) (ops : List DOp) :
+    runDec O (decReset s) ops =
+      runDec O (decFresh s.fs s.channels s.arch s.silkDecOffset s.celtDecOffset s.decodeGain s.complexity
+                 s.celtComplexity s.celtDisableInv) ops :=
+  runDec_congr O ops (decView_reset_eq_fresh (dreach_inv h))
+
+example : DReach (decodeStep ⟨fun _ _ => .packet, fun _ _ => ⟨1, 1103, 1000, 1000, 320, 0, 320, .used 1, 77, true, .used 2,
+    .used 3, 1, 16000, 20, 228, 0, 1, 1⟩, fun _ _ => ⟨320, 5⟩, fun v _ => v.dcPrevPitchLag⟩
+    (decInit 16000 1 4 96 8712) ⟨3, 5760, 0, 1⟩).1 := .decode _ _ (.init ..)
+
+example : runDec ⟨fun _ _ => .packet, fun _ _ => ⟨1, 1103, 1000, 1000, 320, 0, 320, .used 1, 77, true, .used 2,
+    .used 3, 1, 16000, 20, 228, 0, 1, 1⟩, fun _ _ => ⟨320, 5⟩, fun v _ => v.dcPrevPitchLag⟩
+    (decInit 16000 1 4 96 8712) [.decode ⟨3, 5760, 0, 1⟩, .get 4033, .reset, .get 4033]
+  = [(320, 5), (228, 0), (0, 0), (0, 0)] := by decide
+
+/-- Same clause for the multistream encoder (and the projection encoder, whose ctl forwards the request),
+    state form: OPUS_RESET_STATE — clear the surround memories, then the per-stream reset through the
+    fan-out loop — returns OPUS_OK and leaves an object whose own members and memories equal, and whose
+    stream encoders are pairwise indistinguishable from, those of a new multistream encoder whose streams
+    carry the same settings; hence every stream answers every later per-stream call sequence identically.
+    (What opus_multistream_encode_native computes from the multistream-level members is not modelled: the
+    multistream encode call is searched by the twin harness.) -/
+theorem ms_reset_eq_init (m : MsEnc) (h : MsInv m) (O : Oracles) (G : GetOracle) (ops : List Op) :
+    MsObsEq (msEncReset m).1 (msEncFresh m) ∧ (msEncReset m).2 = Ctl.Ret.ok ∧
+    (msEncReset m).1.streams.map (fun e => run O G e ops) = (msEncFresh m).streams.map (fun e => run O G e ops) :=
+  ⟨(msEncReset_eq_fresh m h).1, (msEncReset_eq_fresh m h).2, allPairs_run O G ops (msEncReset_eq_fresh m h).1.2.2.2.2.2.2.2.2.2.2.2⟩
+
+example : MsInv { nbChannels := 3, nbStreams := 2, nbCoupled := 1, mapping := [0, 2, 1], arch := 4, lfeStream := -1,
+                  application := 2049, variableDuration := 5000, mappingType := 1, bitrateBps := -1000, mems := .used 9,
+                  streams := [encInit 48000 2 2049 4 18152 38416, encInit 48000 1 2049 4 18152 38416] } :=
+  ⟨fun e he => by
+      simp only [List.mem_cons, List.mem_nil_iff, or_false] at he
+      rcases he with rfl | rfl <;> exact .init .., fun hs => absurd rfl hs⟩
+
+/-- Same for the multistream / projection decoder: the fan-out of the per-stream reset leaves stream decoders
+    pairwise indistinguishable from new ones with the same settings, for every later per-stream call sequence. -/
+theorem ms_dec_reset_eq_init (m : MsDec) (h : ∀ d ∈ m.streams, DReach d) (O : DOracles) (ops : List DOp) :
+    MsDecObsEq (msDecReset m).1 (msDecFresh m) ∧ (msDecReset m).2 = Ctl.Ret.ok ∧
+    (msDecReset m).1.streams.map (fun d => runDec O d ops) = (msDecFresh m).streams.map (fun d => runDec O d ops) :=
+  have hr := msDecReset_eq_fresh m (fun d hd => dreach_inv (h d hd))
+  ⟨hr.1, hr.2, allPairs_runDec O ops hr.1.2.2.2.2⟩
+
+example : ∀ d ∈ [decInit 48000 2 4 96 8712, decInit 48000 1 4 96 8712], DReach d := fun d hd => by
+  simp only [List.mem_cons, List.mem_nil_iff, or_false] at hd
+  rcases hd with rfl | rfl <;> exact .init ..
 
 /-- Clause "a state copied with memcpy behaves like the original", pointer part: in the regenerated
     member lists the only pointer-typed member of OpusEncoder / OpusDecoder is `energy_masking`
